@@ -192,6 +192,14 @@ theorem maskdict_hit_replaces (mask ks : List Char) (v : PyVal) (hk : keyMatches
   | .str s, _ => simp [maskValue, hk]
   | .opaque i, _ => simp [maskValue, hk]
 
+/-- feeding a result to a further call (same or another mask): what was masked under a sanitize key is
+    masked again with the new mask, never unmasked and never passed through `mask_password` -/
+theorem maskdict_remask_hit (mask mask' ks : List Char) (v : PyVal) (hk : keyMatches Gen.sanitizeKeys ks = true)
+    (hv : ∀ items, v ≠ .map items) :
+    maskValue mask' (.str ks) (maskValue mask (.str ks) v) = .str mask' := by
+  rw [maskdict_hit_replaces mask ks v hk hv]
+  exact maskdict_hit_replaces mask' ks _ hk (by intro items h; cases h)
+
 /-- a mapping value is recursed into whatever its key is -- also under a sanitize key, where it is NOT
     replaced by the mask -/
 theorem maskdict_mapping_always_recursed (mask : List Char) (k : PyKey) (items : List (PyKey × PyVal)) :
